@@ -1,7 +1,7 @@
 """C13 - Tables behave like a list of rows; tree sequences never change (structural clauses)."""
 from __future__ import annotations
 
-from . import lib_schema
+from . import lib_schema, lib_module, lib_py
 
 LEVEL = "other"
 EXPLANATION = ("Column-schema completeness of every row/column operation family on the eight tables (obligations generated "
@@ -11,3 +11,13 @@ EXPLANATION = ("Column-schema completeness of every row/column operation family 
 def run(ctx):
     P = ctx.program()
     lib_schema.all_families(ctx, P)
+    lib_schema.column_domain(ctx, P)
+    lib_module.array_flags(ctx, P)
+    lib_module.owned_arrays(ctx, P)
+    lib_module.format_types(ctx, P)
+    py = ctx.python()
+    lib_py.validate_before_store(ctx, py)
+    lib_py.table_name_agreement(ctx, py)
+    lib_py.setcols_complete(ctx, py)
+    lib_py.facade_guard(ctx, py, "tables", "BaseTable.__getitem__", "index", "ll_table.get_row", upper="len(self)")
+    lib_py.ll_positional(ctx, py, P)
